@@ -322,148 +322,294 @@ def note_of(cat, data, keymap, msgs):
     return lvl + ":other"
 
 
+class _Session:
+    """ONE ContentComparer (its ObserverList and project observers) and the jobs of `spec`, run one at a time (`job(n)`).
+
+    Per job it records what the oracle needs — the notifications the comparer raised (at ObserverList.notify), the stats it
+    pushed (ObserverList.updateStats), the classification hooks — and the tokens of the job for the driver line."""
+
+    def __init__(self, spec, d):
+        from compare_locales.compare import content as content_mod
+        self.content_mod = content_mod
+        self.spec, self.d = spec, d
+        shutil.rmtree(d, ignore_errors=True)
+        os.makedirs(d)
+        self.files = files = []
+        for f in spec["files"]:
+            full = os.path.join(d, f["path"])
+            if f.get("text") is not None:
+                os.makedirs(os.path.dirname(full), exist_ok=True)
+                with open(full, "w", encoding="utf-8", newline="") as fh:
+                    fh.write(f["text"])
+            elif f.get("dir"):
+                os.makedirs(full, exist_ok=True)
+            files.append(File(full, f["file"], module=f["module"], locale=f["locale"]))
+        quiet = spec["quiet"]
+        self.cc = cc = RecordingComparer()
+        cc.observers.quiet = quiet
+        for rules in spec["observers"]:
+            cc.observers.append(Observer(quiet=quiet, filter=None if rules is None else mk_filter(files, rules)))
+        self.log, self.pushes = log, pushes = [], []
+        real_notify, real_update = cc.observers.notify, cc.observers.updateStats
+
+        def notify(category, file, data):
+            rv = real_notify(category, file, data)
+            log.append((category, file, data, rv))
+            return rv
+
+        def update(file, stats):
+            pushes.append((file, dict(stats)))
+            return real_update(file, stats)
+        cc.observers.notify, cc.observers.updateStats = notify, update
+
+        toks = [str(quiet), "F", str(len(files))]
+        for f in files:
+            toks += ["t:" + codes(f.file), "-" if f.module is None else "t:" + codes(f.module), "-" if f.locale is None else "t:" + codes(f.locale)]
+        toks += ["O", str(len(spec["observers"]))]
+        for rules in spec["observers"]:
+            if rules is None:
+                toks.append("N")
+            else:
+                toks += ["R", str(len(rules))]
+                for fi, sel, ret in rules:
+                    toks += ["*" if fi == -1 else str(fi), "*" if sel == "*" else data_wire(sel), ret[0]]
+        self.head = toks                      # comparer header of the driver line
+        self.jtoks = {}                       # job number -> tokens
+        self.jobs_out = {}                    # job number -> what the oracle looks at
+        self.outcomes = {}                    # job number -> merge outcome
+        self.order = []                       # job numbers in call order
+
+    def job(self, n):
+        from impl import pipeline as PL
+        content_mod = self.content_mod
+        files, cc, log, pushes, d = self.files, self.cc, self.log, self.pushes, self.d
+        job = self.spec["jobs"][n]
+        saved = (content_mod.shutil, content_mod.codecs)
+        ref, l10n = files[job["ref"]], files[job["l10n"]]
+        mergep = os.path.join(d, "merge-%d" % n, os.path.basename(l10n.file)) if job["merge"] else None
+        P.Junk.junkid = 0
+        keymap, msgs = {}, []
+        jt = [job["op"], str(job["ref"]), str(job["l10n"]), "1" if job["merge"] else "0"]
+        # ---- the model's input, computed BEFORE the real call from a parser of our own
+        if job["op"] != "rm":
+            try:
+                parser = type(P.getParser(ref.file))()
+            except UserWarning:
+                parser = None
+            if parser is None:
+                jt.append("np")
+            else:
+                caps = parser.capabilities
+                body = None
+                try:
+                    parser.readFile(ref)
+                    ref_text = parser.ctx.contents
+                    ref_ents = None if job["level"] == "text" else list(parser.parse())
+                except Exception as e:
+                    body = ["re"] + ([str(caps)] if job["op"] == "add" else []) + ["t:" + codes(str(e))]
+                if body is None and job["op"] == "cmp":
+                    try:
+                        parser.readFile(l10n)
+                        l10n_text = parser.ctx.contents
+                        l10n_ents = None if job["level"] == "text" else list(parser.parse())
+                    except Exception as e:
+                        body = ["le", "t:" + codes(str(e))]
+                if body is None and job["level"] == "text":
+                    body = ["tx", job["fmt"], "t:" + codes(ref_text)] + (["t:" + codes(l10n_text)] if job["op"] == "cmp" else [])
+                elif body is None and job["op"] == "add":
+                    body = ["en", str(caps), str(len(ref_ents)), ents_wire(describe(ref_ents, [], []))]
+                    for e in ref_ents:
+                        keymap[str(e.key)] = key_wire(e.key)
+                elif body is None:
+                    reps = []
+                    dref = describe(ref_ents, reps, msgs)
+                    dl10n = describe(l10n_ents, reps, msgs)
+                    for e in ref_ents + l10n_ents:
+                        keymap[str(e.key)] = key_wire(e.key)
+                    body = ["en", str(len(dref)), str(len(dl10n)), ents_wire(dref), ents_wire(dl10n), None]   # checks: after the call
+                jt += body
+        # ---- the real call
+        P.Junk.junkid = 0
+        nlog, npush = len(log), len(pushes)
+        cc.hooks = {"changed": [], "unchanged": []}
+        mlog = []
+        content_mod.shutil, content_mod.codecs = PL._Shutil(mlog), PL._Codecs(mlog)
+        try:
+            if job["op"] == "cmp":
+                cc.compare(ref, l10n, mergep)
+            elif job["op"] == "add":
+                cc.add(ref, l10n, mergep)
+            else:
+                cc.remove(ref, l10n, mergep)
+        finally:
+            content_mod.shutil, content_mod.codecs = saved
+        l10n_bytes = b""
+        if os.path.isfile(l10n.fullpath):
+            with open(l10n.fullpath, "rb") as fh:
+                l10n_bytes = fh.read()
+        self.outcomes[n] = PL.merge_outcome(mlog, mergep, ref.fullpath, l10n.fullpath, l10n_bytes)
+        mine = log[nlog:]
+        if jt and jt[-1] is None:
+            # the checker's messages, grouped by the reference key they name, in the order raised
+            per = {}
+            for cat, f, data, rv in mine:
+                m = CHECK_RE.search(data) if (cat in ("error", "warning") and isinstance(data, str)) else None
+                if m and m.group(1) in keymap:
+                    per.setdefault(keymap[m.group(1)], []).append(("e" if cat == "error" else "w") + " t:" + codes(data))
+            chk = [str(len(per))]
+            for k, items in per.items():
+                chk += [k, str(len(items))] + items
+            jt[-1] = " ".join([str(len(msgs))] + ["t:" + codes(m) for m in msgs] + chk)
+        self.jtoks[n] = jt
+        self.order.append(n)
+        self.jobs_out[n] = {
+            "notes": [[files.index(f), note_of(cat, data, keymap, msgs), rv] for cat, f, data, rv in mine],
+            "pushes": [[files.index(f), st] for f, st in pushes[npush:]],
+            "hooks": cc.hooks, "body": jt[4] if len(jt) > 4 else "rm",
+        }
+
+    def observers_canon(self):
+        from impl.observer import show_obs
+        return "|L " + show_obs(self.cc.observers) + "".join(" |O " + show_obs(o) for o in self.cc.observers)
+
+    def summary(self):
+        return {"L": {str(k): dict(v) for k, v in self.cc.observers.summary.items()},
+                "O": [{str(k): dict(v) for k, v in o.summary.items()} for o in self.cc.observers]}
+
+
 def impl_session(spec):
     """ONE ContentComparer (its ObserverList and project observers) through the jobs of `spec`.
 
     Returns the driver line (`c03.sess`), the canonical final state, and per job what the oracle needs: the notifications the
     comparer raised (recorded at ObserverList.notify), the stats it pushed (ObserverList.updateStats), the classification hooks."""
-    from impl.observer import show_obs
-    from impl import pipeline as PL
-    from compare_locales.compare import content as content_mod
-    d = os.path.join(workdir(), "sess")
-    shutil.rmtree(d, ignore_errors=True)
-    os.makedirs(d)
-    files = []
-    for f in spec["files"]:
-        full = os.path.join(d, f["path"])
-        if f.get("text") is not None:
-            os.makedirs(os.path.dirname(full), exist_ok=True)
-            with open(full, "w", encoding="utf-8", newline="") as fh:
-                fh.write(f["text"])
-        elif f.get("dir"):
-            os.makedirs(full, exist_ok=True)
-        files.append(File(full, f["file"], module=f["module"], locale=f["locale"]))
-    quiet = spec["quiet"]
-    cc = RecordingComparer()
-    cc.observers.quiet = quiet
-    for rules in spec["observers"]:
-        cc.observers.append(Observer(quiet=quiet, filter=None if rules is None else mk_filter(files, rules)))
-    log, pushes = [], []
-    real_notify, real_update = cc.observers.notify, cc.observers.updateStats
+    s = _Session(spec, os.path.join(workdir(), "sess"))
+    for n in range(len(spec["jobs"])):
+        s.job(n)
+    toks = ["c03.sess"] + s.head + ["J", str(len(spec["jobs"]))]
+    for n in s.order:
+        toks += s.jtoks[n]
+    canon = "ok m=" + ",".join(s.outcomes[n] for n in s.order) + " " + s.observers_canon()
+    return {"line": " ".join(" ".join(toks).split()), "canon": canon, "jobs": [s.jobs_out[n] for n in s.order],
+            "summary": s.summary()}
 
-    def notify(category, file, data):
-        rv = real_notify(category, file, data)
-        log.append((category, file, data, rv))
-        return rv
 
-    def update(file, stats):
-        pushes.append((file, dict(stats)))
-        return real_update(file, stats)
-    cc.observers.notify, cc.observers.updateStats = notify, update
+# ====================================================================== round 5: ONE PROCESS, a history of calls (c03.proc)
+def impl_xhistory(specs, calls):
+    """several comparers (`specs`, as for impl_session) in THIS process; `calls` = [[comparer, job number]] in call order.
 
-    toks = ["c03.sess", str(quiet), "F", str(len(files))]
-    for f in files:
-        toks += ["t:" + codes(f.file), "-" if f.module is None else "t:" + codes(f.module), "-" if f.locale is None else "t:" + codes(f.locale)]
-    toks += ["O", str(len(spec["observers"]))]
-    for rules in spec["observers"]:
-        if rules is None:
-            toks.append("N")
-        else:
-            toks += ["R", str(len(rules))]
-            for fi, sel, ret in rules:
-                toks += ["*" if fi == -1 else str(fi), "*" if sel == "*" else data_wire(sel), ret[0]]
-    toks += ["J", str(len(spec["jobs"]))]
-    jobs_out, outcomes = [], []
-    saved = (content_mod.shutil, content_mod.codecs)
-    try:
-        for n, job in enumerate(spec["jobs"]):
-            ref, l10n = files[job["ref"]], files[job["l10n"]]
-            mergep = os.path.join(d, "merge-%d" % n, os.path.basename(l10n.file)) if job["merge"] else None
-            P.Junk.junkid = 0
-            keymap, msgs = {}, []
-            jt = [job["op"], str(job["ref"]), str(job["l10n"]), "1" if job["merge"] else "0"]
-            # ---- the model's input, computed BEFORE the real call from a parser of our own
-            if job["op"] != "rm":
-                try:
-                    parser = type(P.getParser(ref.file))()
-                except UserWarning:
-                    parser = None
-                if parser is None:
-                    jt.append("np")
-                else:
-                    caps = parser.capabilities
-                    body = None
-                    try:
-                        parser.readFile(ref)
-                        ref_text = parser.ctx.contents
-                        ref_ents = None if job["level"] == "text" else list(parser.parse())
-                    except Exception as e:
-                        body = ["re"] + ([str(caps)] if job["op"] == "add" else []) + ["t:" + codes(str(e))]
-                    if body is None and job["op"] == "cmp":
-                        try:
-                            parser.readFile(l10n)
-                            l10n_text = parser.ctx.contents
-                            l10n_ents = None if job["level"] == "text" else list(parser.parse())
-                        except Exception as e:
-                            body = ["le", "t:" + codes(str(e))]
-                    if body is None and job["level"] == "text":
-                        body = ["tx", job["fmt"], "t:" + codes(ref_text)] + (["t:" + codes(l10n_text)] if job["op"] == "cmp" else [])
-                    elif body is None and job["op"] == "add":
-                        body = ["en", str(caps), str(len(ref_ents)), ents_wire(describe(ref_ents, [], []))]
-                        for e in ref_ents:
-                            keymap[str(e.key)] = key_wire(e.key)
-                    elif body is None:
-                        reps = []
-                        dref = describe(ref_ents, reps, msgs)
-                        dl10n = describe(l10n_ents, reps, msgs)
-                        for e in ref_ents + l10n_ents:
-                            keymap[str(e.key)] = key_wire(e.key)
-                        body = ["en", str(len(dref)), str(len(dl10n)), ents_wire(dref), ents_wire(dl10n), None]   # checks: after the call
-                    jt += body
-            # ---- the real call
-            P.Junk.junkid = 0
-            nlog, npush = len(log), len(pushes)
-            cc.hooks = {"changed": [], "unchanged": []}
-            mlog = []
-            content_mod.shutil, content_mod.codecs = PL._Shutil(mlog), PL._Codecs(mlog)
+    Returns the `c03.proc` driver line, the canonical final state of every comparer, and per comparer what impl_session
+    returns (`jobs`: by job number; a job that was not called is None)."""
+    root = os.path.join(workdir(), "proc")
+    shutil.rmtree(root, ignore_errors=True)
+    sessions = [_Session(spec, os.path.join(root, "c%d" % i)) for i, spec in enumerate(specs)]
+    for c, n in calls:
+        sessions[c].job(n)
+    toks = ["c03.proc", "C", str(len(sessions))]
+    for s in sessions:
+        toks += s.head
+    toks += ["H", str(len(calls))]
+    for c, n in calls:
+        toks += [str(c)] + sessions[c].jtoks[n]
+    canon = "ok m=" + ",".join(sessions[c].outcomes[n] for c, n in calls) + "".join(" |C " + s.observers_canon() for s in sessions)
+    return {"line": " ".join(" ".join(toks).split()), "canon": canon,
+            "sessions": [{"jobs": [s.jobs_out.get(n) for n in range(len(s.spec["jobs"]))], "summary": s.summary()} for s in sessions]}
+
+
+def _isolated(fn, args, mode, timeout=60.0):
+    """run impl.compare.<fn>(*args) in a process that has executed NO job before.
+
+    mode "fork": a child forked from this worker, which itself only imports and forks (it never parses, compares or counts);
+    mode "spawn": a new interpreter.  Returns {"r": …} or {"exc": …} like the pool protocol."""
+    import json
+    import sys
+    if mode == "spawn":
+        import subprocess
+        code = ("import sys, json, warnings\nwarnings.filterwarnings('ignore')\nfrom impl import compare as M\n"
+                "a = json.load(sys.stdin)\nout = sys.stdout\nsys.stdout = sys.stderr\n"
+                "try:\n    r = {'r': getattr(M, a[0])(*a[1])}\n"
+                "except BaseException as e:\n    r = {'exc': type(e).__name__, 'msg': str(e)[:300]}\n"
+                "M.drop_workdir()\nout.write(json.dumps(r))\n")
+        env = dict(os.environ)
+        env.pop("VERIF_IMPLCOV_DIR", None)
+        try:
+            p = subprocess.run([sys.executable, "-W", "ignore", "-c", code], input=json.dumps([fn, args]).encode(),
+                               stdout=subprocess.PIPE, stderr=subprocess.DEVNULL, env=env, timeout=timeout)
+            return json.loads(p.stdout)
+        except subprocess.TimeoutExpired:
+            return {"exc": "Hang", "msg": "no result within the deadline"}
+        except ValueError:
+            return {"exc": "Crash", "msg": "the fresh interpreter returned nothing"}
+    import select
+    r, w = os.pipe()
+    pid = os.fork()
+    if pid == 0:
+        code = 1
+        try:
+            os.close(r)
+            global _dir
+            _dir = None
             try:
-                if job["op"] == "cmp":
-                    cc.compare(ref, l10n, mergep)
-                elif job["op"] == "add":
-                    cc.add(ref, l10n, mergep)
-                else:
-                    cc.remove(ref, l10n, mergep)
-            finally:
-                content_mod.shutil, content_mod.codecs = saved
-            l10n_bytes = b""
-            if os.path.isfile(l10n.fullpath):
-                with open(l10n.fullpath, "rb") as fh:
-                    l10n_bytes = fh.read()
-            outcomes.append(PL.merge_outcome(mlog, mergep, ref.fullpath, l10n.fullpath, l10n_bytes))
-            mine = log[nlog:]
-            if jt and jt[-1] is None:
-                # the checker's messages, grouped by the reference key they name, in the order raised
-                per = {}
-                for cat, f, data, rv in mine:
-                    m = CHECK_RE.search(data) if (cat in ("error", "warning") and isinstance(data, str)) else None
-                    if m and m.group(1) in keymap:
-                        per.setdefault(keymap[m.group(1)], []).append(("e" if cat == "error" else "w") + " t:" + codes(data))
-                chk = [str(len(per))]
-                for k, items in per.items():
-                    chk += [k, str(len(items))] + items
-                jt[-1] = " ".join([str(len(msgs))] + ["t:" + codes(m) for m in msgs] + chk)
-            toks += jt
-            jobs_out.append({
-                "notes": [[files.index(f), note_of(cat, data, keymap, msgs), rv] for cat, f, data, rv in mine],
-                "pushes": [[files.index(f), st] for f, st in pushes[npush:]],
-                "hooks": cc.hooks, "body": jt[4] if len(jt) > 4 else "rm",
-            })
+                res = {"r": globals()[fn](*args)}
+            except BaseException as e:      # noqa: classify every failure, as the pool worker does
+                res = {"exc": type(e).__name__, "msg": str(e)[:300]}
+            data = json.dumps(res).encode()
+            while data:
+                data = data[os.write(w, data):]
+            drop_workdir()
+            covdir = os.environ.get("VERIF_IMPLCOV_DIR")
+            if covdir:
+                try:
+                    from lib import implcov
+                    implcov.dump(covdir)
+                except Exception:
+                    pass
+            code = 0
+        finally:
+            os._exit(code)
+    os.close(w)
+    buf = b""
+    import time
+    deadline = time.monotonic() + timeout
+    try:
+        while True:
+            left = deadline - time.monotonic()
+            if left <= 0 or not select.select([r], [], [], left)[0]:
+                os.kill(pid, 9)
+                return {"exc": "Hang", "msg": "no result within the deadline"}
+            chunk = os.read(r, 1 << 16)
+            if not chunk:
+                break
+            buf += chunk
     finally:
-        content_mod.shutil, content_mod.codecs = saved
-    canon = "ok m=" + ",".join(outcomes) + " |L " + show_obs(cc.observers) + "".join(" |O " + show_obs(o) for o in cc.observers)
-    return {"line": " ".join(" ".join(toks).split()), "canon": canon, "jobs": jobs_out,
-            "summary": {"L": {str(k): dict(v) for k, v in cc.observers.summary.items()},
-                        "O": [{str(k): dict(v) for k, v in o.summary.items()} for o in cc.observers]}}
+        os.close(r)
+        try:
+            os.waitpid(pid, 0)
+        except OSError:
+            pass
+    try:
+        return json.loads(buf)
+    except ValueError:
+        return {"exc": "Crash", "msg": "the forked worker returned nothing"}
+
+
+def drop_workdir():
+    global _dir
+    if _dir is not None:
+        shutil.rmtree(_dir, ignore_errors=True)
+        _dir = None
+
+
+def impl_xcase(specs, calls, spawn=()):
+    """a history in a process of its own, and every call of it ALONE in a process of its own (the same comparer configuration,
+    the same files): `hist` = impl_xhistory(specs, calls), `fresh[i]` = the i-th call as the first call of a fresh process.
+    `spawn`: positions of calls whose fresh process is a new interpreter instead of a fork of this (job-free) worker."""
+    hist = _isolated("impl_xhistory", [specs, calls], "fork")
+    fresh = []
+    for i, (c, n) in enumerate(calls):
+        one = dict(specs[c])
+        one["jobs"] = [specs[c]["jobs"][n]]
+        fresh.append(_isolated("impl_xhistory", [[one], [[0, 0]]], "spawn" if i in spawn else "fork"))
+    return {"hist": hist, "fresh": fresh}
 
 
 def impl_keyed(fmt, text, probes, nitems=None):
